@@ -186,7 +186,10 @@ def reference(lex):
         for s in e.get('senses', []):
             if s['synset'] in red:
                 R['W202'][s['id']] = {'entry': e['id'], 'synset': s['synset']}
-    R['W203'] = {form: {'synset': ss} for (form, ss) in _multi((e['lemma']['writtenForm'], s['synset']) for e, s in senses)}
+    # "redundant lexical entry with the same lemma and synset": two *entries*, not two senses of one entry (that
+    # is W202) - written from the documented condition, not from the implementation
+    R['W203'] = {form: {'synset': ss} for (form, ss) in _multi(
+        (e['lemma']['writtenForm'], ssid) for e in ents for ssid in sorted({s['synset'] for s in e.get('senses', [])}))}
     R['E204'] = {s['id']: {'synset': s['synset']} for _, s in senses if s['synset'] not in ssids}
     used = {s['synset'] for _, s in senses}
     R['W301'] = {ss['id']: {} for ss in syns if ss['id'] not in used}
@@ -217,7 +220,8 @@ def reference(lex):
                  [(ss['id'], r['relType'], r['target'], (r.get('meta') or {}).get('type')) for ss, r in ssrels])
     R['W403'] = {src: None for (src, _, _, _) in red}
     regular = {(s['id'], r['relType'], r['target']) for s, r in srels if r['target'] in sids}
-    regular |= {(ss['id'], r['relType'], r['target']) for ss, r in ssrels}
+    # a reverse relation can only be missing on an entity that exists (a dangling target is E401's business)
+    regular |= {(ss['id'], r['relType'], r['target']) for ss, r in ssrels if r['target'] in ssids}
     R['W404'] = {}
     for (src, typ, tgt) in regular:
         if typ in REVERSE_RELATIONS and (tgt, REVERSE_RELATIONS[typ], src) not in regular:
